@@ -93,3 +93,5 @@ func cmdScanDump(args []string) int {
 	}
 	return 0
 }
+
+func graphGetFiles(dir string) ([]string, error) { return graph.VerifGetFiles(dir) }
